@@ -84,7 +84,7 @@ RULE = ('cases = {dense k grid (2000 quick / 20000 thorough points on [0,(1-1e-3
 REQUIRED_MONITORS = ['rcrit_ge_rmin', 'barrier_nonneg', 'quantity_nonneg_finite', 'zero_rate_nonpositive_df',
                      'incubation_factor', 'rate_monotone_df', 'rcrit_sphere', 'barrier_sphere_ratio',
                      'factor_nonneg', 'factor_k0', 'factor_identity', 'factor_c_decreasing', 'factor_geometry',
-                     'sites_nonneg', 'sites_nonincreasing', 'cache_fresh', 'array_scalar']
+                     'sites_nonneg', 'sites_nonincreasing', 'sites_decrease', 'cache_fresh', 'array_scalar']
 REACH = ['precipitation/NucleationRate.py:nucleationBarrier', 'precipitation/NucleationRate.py:zeldovich',
          'precipitation/NucleationRate.py:betaBinary1', 'precipitation/NucleationRate.py:betaBinary2',
          'precipitation/NucleationRate.py:betaMulti', 'precipitation/NucleationRate.py:incubationTime',
@@ -864,6 +864,11 @@ def _case_sites(case, R):
                 if S < prev:
                     shrunk = True
             prev = S
+        # "decreases as precipitates occupy sites": an overwhelming population of the phases that use this site type
+        # (scale 1e21) must leave strictly fewer sites than the empty state (added after seeded change C14-b, where
+        # the occupation of one site type was never counted: constant, hence 'non-increasing', but not decreasing)
+        if S0 > 0 and any(float(np.sum(base[q])) > 0 for q in occupiers):
+            R.check('sites_decrease', seq[-1] < S0, dict(mech, mode='saturated'), empty=S0, saturated=seq[-1])
         # additional particles in single classes
         s_mid = 10 ** float(rng.uniform(0, 8))
         xs = [b * s_mid if q in occupiers else b.copy() for q, b in enumerate(base)]
